@@ -210,7 +210,9 @@ def run(ck):
     for cls, fields, widths, setters in (("ecss.tc.PusTc", TC_FIELDS, TC_WIDTHS, ("apid", "seq_count", "source_id", "app_data")),
                                          ("ecss.tm.PusTm", TM_FIELDS, TM_WIDTHS, ("apid", "tm_data"))):
         short = cls.split(".")[-1]
-        for first in ("pack", "calc_crc", "to_space_packet"):
+        # one object per (first call, observed serialisation): observing through pack() refreshes the cached CRC, which
+        # would hide a stale trailer on the to_space_packet() path (and vice versa)
+        for first, only in ((f_, h_) for f_ in ("pack", "calc_crc", "to_space_packet") for h_ in ("pack", "to_space_packet")):
             it = new_interp(P); env = Env()
             kw = {k: sym(k, ty=t) for k, t in fields.items()}
             try:
@@ -219,7 +221,7 @@ def run(ck):
                 hdr = read_path(it, env, obj, "sp_header")
 
                 def all_forms(tag):
-                    for how in ("pack", "to_space_packet"):
+                    for how in (only,):
                         if how == "pack":
                             p = call_method(it, env, obj, "pack")
                         else:
